@@ -1,0 +1,29 @@
+//go:build verif
+
+package forward
+
+import (
+	"net"
+	"time"
+
+	"github.com/postalsys/muti-metroo/internal/crypto"
+	"github.com/postalsys/muti-metroo/internal/identity"
+)
+
+// VerifAttach registers an already-established target connection with its
+// session key and starts readLoop on it (the tail of handleStreamOpenAsync),
+// so that the verification harness can feed readLoop from a scripted net.Conn.
+func (h *Handler) VerifAttach(streamID uint64, remoteID identity.AgentID, conn net.Conn, key *crypto.SessionKey) {
+	ac := &ActiveConnection{
+		StreamID:   streamID,
+		RemoteID:   remoteID,
+		Conn:       conn,
+		StartedAt:  time.Now(),
+		sessionKey: key,
+	}
+	h.mu.Lock()
+	h.connections[streamID] = ac
+	h.connCount.Add(1)
+	h.mu.Unlock()
+	go h.readLoop(ac)
+}
